@@ -128,9 +128,19 @@ def process_phase(tier):
             fam.append(x)
 
         t()
+        groups = []
         for f in fam:
-            for item in f["texts"]:
-                corpus.append(dict(item, family=True) if isinstance(item, dict) else {"text": item, "family": True})
+            groups.append([dict(item) if isinstance(item, dict) else {"text": item} for item in f["texts"]])
+        # court families: an abbreviated court that several courts-db entries start with, next to citations naming each
+        # of those courts in full (walked forwards by one child and backwards by the next)
+        cf = inv.ambiguous_court_prefixes()
+        if tier == "quick":
+            cf = cf[seed % 2::2]
+        for gi, (abbr, fulls) in enumerate(cf):
+            groups.append([{"text": t} for t in _court_texts(abbr, fulls, gi)])
+        for gi, g in enumerate(groups):
+            for item in g:
+                corpus.append(dict(item, family=True, group=gi))
         workdir = os.path.join(HOME, "out", "C15", f"proc-{os.getpid()}")
         shutil.rmtree(workdir, ignore_errors=True)
         os.makedirs(workdir)
@@ -185,7 +195,13 @@ def process_phase(tier):
                     if item.get("tie"):
                         res.label("tie-prone")
                     case = {"kind": "process", "tokenizer": tkn, "seeds": [str(x) for x in ss], **item}
-                    if len(set(vals)) > 1:
+                    if len(set(vals)) > 1 and item.get("family"):
+                        a = vals[0]
+                        j = next(k for k, v in enumerate(vals) if v != a)
+                        g = [{k: v for k, v in it.items() if k in ("text", "markup", "steps", "ra")} for it in groups[item["group"]]]
+                        res.v(f"process-dependent:{tkn}", f"PYTHONHASHSEED={ss[0]}: {_difference(a, vals[j])} vs PYTHONHASHSEED={ss[j]} (other order)",
+                              case={"kind": "process", "tokenizer": tkn, "seeds": [str(ss[0]), str(ss[j])], "group_items": g, "index": g.index({k: v for k, v in item.items() if k in ("text", "markup", "steps", "ra")})})
+                    elif len(set(vals)) > 1:
                         a = vals[0]
                         j = next(k for k, v in enumerate(vals) if v != a)
                         res.v(f"process-dependent:{tkn}" if item.get("family") else f"hash-seed-dependent:{tkn}", f"PYTHONHASHSEED={ss[0]}: {_difference(a, vals[j])} vs PYTHONHASHSEED={ss[j]}", case={"kind": "process", "tokenizer": tkn, "seeds": [str(ss[0]), str(ss[j])], **{k: v for k, v in item.items()}})
@@ -217,6 +233,22 @@ def eval_process_replay(case):
     os.makedirs(workdir, exist_ok=True)
     try:
         cp = os.path.join(workdir, "c.json")
+        if "group_items" in case:
+            # a family: the same texts walked forwards and backwards in two fresh interpreters (same hash seed)
+            json.dump(case["group_items"], open(cp, "w", encoding="utf8"), ensure_ascii=False)
+            vals = []
+            for tkn in (case.get("tokenizer", "ac"), case.get("tokenizer", "ac") + "-rev"):
+                op = os.path.join(workdir, f"o{tkn}.json")
+                r = subprocess.run([sys.executable, "-m", "vf.c15_child", cp, op, tkn], env=dict(os.environ, PYTHONHASHSEED="0"), capture_output=True)
+                if r.returncode != 0:
+                    raise HarnessError(r.stderr.decode()[-400:])
+                vals.append(json.load(open(op, encoding="utf8")))
+            for x, y in zip(*vals):
+                if x != y:
+                    res.v(f"process-dependent:{case.get('tokenizer', 'ac')}", "forwards vs backwards: " + _difference(x, y))
+                    break
+            res.nontrivial = True
+            return res
         item = {k: v for k, v in case.items() if k in ("text", "markup", "steps", "ra")}
         json.dump([item], open(cp, "w", encoding="utf8"), ensure_ascii=False)
         vals = []
@@ -485,8 +517,27 @@ def _family(draw):
     return {"kind": "history", "texts": texts, "ops": ops}
 
 
+def _court_texts(abbr, fulls, k=0):
+    rep = ["F.2d", "N.E.2d", "P.2d", "F. Supp."][k % 4]
+    out = [f"Doe v. Roe, {10 + k % 7} {rep} {100 + k} ({abbr} 2005)."]
+    for j, f in enumerate(fulls[:6]):
+        out.append(f"Foo v. Bar, {5 + j} {rep} {50 + k}, {52 + k} ({f} 1999).")
+    return out
+
+
+@st.composite
+def _court_family(draw):
+    """An abbreviated court with several candidate courts, between citations that name each candidate in full."""
+    cf = inv.ambiguous_court_prefixes()
+    k = draw(st.integers(0, len(cf) - 1))
+    texts = _court_texts(cf[k][0], cf[k][1], k)
+    n = len(texts)
+    ops = [[0, 0]] + draw(st.lists(st.tuples(st.integers(0, n - 1), st.integers(0, 1)).map(list), min_size=2, max_size=8)) + [[0, 0]]
+    return {"kind": "history", "texts": texts, "ops": ops}
+
+
 def _history():
-    return st.one_of(_family(), _plain_history())
+    return st.one_of(_family(), _plain_history(), _plain_history(), _court_family())
 
 
 def _plain_history():
